@@ -191,15 +191,20 @@ Qed.
 
 (* ---- the source theorem, on FieldDecl.ref_fields ---- *)
 
-Theorem ref_fields_alias : forall (ls: list level) (l: level) (extra: list pyclass) nsd ownf,
-  Forall fieldless extra ->
+(* rest: the MRO of the class after the class itself, as the builder sees it (each entry: the
+   __dataclass_fields__ of that class, or None); it resolves names like the hierarchy ls of the ancestors *)
+Definition mro_of (rest: list pyclass) (ls: list level) : Prop :=
+  forall n, nearest rest n = option_map (fun p => mdf (fst p)) (lookup_decl n (collect ls)).
+
+Theorem ref_fields_alias : forall (ls: list level) (l: level) (rest: list pyclass) nsd ownf,
+  mro_of rest ls ->
   (forall n f i, lookup_decl n (rev (l_decls l)) = Some (f, i) ->
      alias_md (own_result nsd ownf n) = Ok (enc_ostr (f_meta f))) ->
   forall n,
-    alias_md (sd_get (ref_fields (anc (rev ls) ++ extra) (map dname (l_decls l)) nsd ownf) n)
+    alias_md (sd_get (ref_fields rest (map dname (l_decls l)) nsd ownf) n)
     = Ok (enc_ostr (decl_alias (collect (ls ++ [l])) n)).
 Proof.
-  intros ls l extra nsd ownf Hex Hown n.
+  intros ls l rest nsd ownf Hrest Hown n.
   unfold decl_alias. rewrite nearest_declaration.
   destruct (in_dec string_dec n (map dname (l_decls l))) as [Hin|Hin].
   - rewrite ref_fields_own by assumption.
@@ -212,10 +217,34 @@ Proof.
     { unfold lookup_decl. destruct (find _ (rev (l_decls l))) as [p|] eqn:F; [|reflexivity].
       exfalso. apply find_some in F as [Hp Hq]. apply String.eqb_eq in Hq. apply Hin.
       apply in_map_iff. exists p. split; [exact Hq | now apply in_rev]. }
-    rewrite E. rewrite nearest_app, nearest_anc, rev_involutive, (nearest_fieldless extra n Hex).
+    rewrite E. rewrite (Hrest n).
     destruct (lookup_decl n (collect ls)) as [[f i]|]; cbn [option_map alias_md fst].
     + unfold mk_field. cbn. apply mdf_alias.
     + reflexivity.
+Qed.
+
+(* ---- two shapes of MRO ---- *)
+
+(* single inheritance K(B), B(A): every ancestor's __dataclass_fields__ is cumulative *)
+Lemma mro_chain : forall ls extra, Forall fieldless extra -> mro_of (anc (rev ls) ++ extra) ls.
+Proof.
+  intros ls extra Hex n. rewrite nearest_app, nearest_anc, rev_involutive, (nearest_fieldless extra n Hex).
+  destruct (lookup_decl n (collect ls)); reflexivity.
+Qed.
+
+(* multiple inheritance from unrelated classes K(B, A): the MRO lists them nearest first, each with the
+   fields of its own body only *)
+Definition roots (ls: list level) : list pyclass := map (fun l => Some (cum (collect [l]))) (rev ls).
+
+Lemma mro_roots : forall ls extra, Forall fieldless extra -> mro_of (roots ls ++ extra) ls.
+Proof.
+  intros ls extra Hex n. rewrite nearest_app, (nearest_fieldless extra n Hex). unfold roots.
+  induction ls as [|l r IH] using rev_ind; [reflexivity|].
+  rewrite rev_app_distr. cbn [rev app map nearest].
+  rewrite flast_cum by apply collect_nodup.
+  change [l] with ([] ++ [l]) at 1. rewrite !nearest_declaration.
+  destruct (lookup_decl n (rev (l_decls l))) as [p|]; [reflexivity|].
+  cbn [collect fold_left lookup_decl find option_map]. exact IH.
 Qed.
 
 (* ---- the two views the builder has of the class's own body ---- *)
@@ -284,13 +313,13 @@ Qed.
    gives KeyModel.alias_of of the class the hierarchy denotes (with the Config get_config returns) -- for both views of the class body *)
 Theorem alias_from_sources :
   forall (mdf: fld -> kv), (forall f, k_dict_get (mdf f) (KStr "alias") = Ok (enc_ostr (f_meta f))) ->
-  forall (ls: list level) (l: level) (extra: list pyclass) (c0: pyclass) nsd ownf discr,
-  Forall fieldless extra ->
+  forall (ls: list level) (l: level) (rest: list pyclass) (c0: pyclass) nsd ownf discr,
+  mro_of mdf rest ls ->
   sd_get nsd "__dataclass_fields__" = None -> ~ In "__dataclass_fields__" (map dname (l_decls l)) ->
   (forall n f i, lookup_decl n (rev (l_decls l)) = Some (f, i) ->
      alias_md (own_result nsd ownf n) = Ok (enc_ostr (f_meta f))) ->
   exists d,
-    dataclass_fields (KTuple (enc_class c0 :: map enc_class (anc mdf (rev ls) ++ extra)))
+    dataclass_fields (KTuple (enc_class c0 :: map enc_class rest))
                      (KList (map KStr (map dname (l_decls l)))) (enc_namespace nsd ownf)
     = Ok (KDict (enc_sd d))
     /\ forall f, In f (effective (ls ++ [l])) ->
@@ -301,14 +330,14 @@ Theorem alias_from_sources :
               (enc_aliases (c_aliases (builder_class_of (ls ++ [l]) discr)))
             = Ok (enc_ostr (alias_of (builder_class_of (ls ++ [l]) discr) f)).
 Proof.
-  intros mdf Hmdf ls l extra c0 nsd ownf discr Hex Hns Hown Hview.
-  exists (ref_fields (anc mdf (rev ls) ++ extra) (map dname (l_decls l)) nsd ownf).
+  intros mdf Hmdf ls l rest c0 nsd ownf discr Hex Hns Hown Hview.
+  exists (ref_fields rest (map dname (l_decls l)) nsd ownf).
   split; [apply dataclass_fields_ref; assumption|].
   intros f Hf.
-  pose proof (ref_fields_alias mdf Hmdf ls l extra nsd ownf Hex Hview (f_name f)) as HA.
+  pose proof (ref_fields_alias mdf Hmdf ls l rest nsd ownf Hex Hview (f_name f)) as HA.
   unfold decl_alias in HA. rewrite (effective_lookup _ _ Hf) in HA.
   unfold md_lookup, alias_md in *.
-  destruct (sd_get (ref_fields (anc mdf (rev ls) ++ extra) (map dname (l_decls l)) nsd ownf) (f_name f)) as [fo|].
+  destruct (sd_get (ref_fields rest (map dname (l_decls l)) nsd ownf) (f_name f)) as [fo|].
   - destruct (k_getattr2 fo (KStr "metadata")) as [md|e]; [|discriminate HA]. cbn [bind] in HA.
     exists md. split; [reflexivity|].
     unfold alias_of, ann_alias. destruct (f_ann f) as [a|].
